@@ -12,14 +12,23 @@
   * `prime_coefRT`, `prime_upoly_roundtrip`, `prime_upoly_roundtrip_beq` — its instance for prime
     fields;
   * `ext_roundtrip`, `ext_elemRoundTrip` — extension-field elements.
-  Still only stated (`C15.C15_full`, and `C15Full_remaining` below): univariate polynomials over
-  binary/extension fields (needs `CoefRT (binOps …)`, `CoefRT (extOps …)`: the parenthesised
-  coefficient scanner on printed elements), bivariate polynomials, additivity, the notational
-  variations.
+  * `bin_coefRT`, `bin_upoly_roundtrip(_beq)`, `ext_coefRT`, `ext_upoly_roundtrip(_beq)` —
+    univariate polynomials over binary and extension fields (instances at the fields the `Define`
+    functions return: `Props/C15FullDefine.lean`).
+  * `bpoly_roundtrip_generic`, `prime_bpoly_roundtrip`, `bin_bpoly_roundtrip`,
+    `ext_bpoly_roundtrip` — bivariate polynomials, every monomial order, with or without ideal
+    (exponents `< 2^64`, as `BValid` demands).
+  * `upoly_additive_generic`, `prime_/bin_/ext_upoly_additive` — univariate additivity.
+  Still only stated (`C15.C15_full`, and `C15Full_remaining` below): the notational variations,
+  bivariate additivity.
 -/
 import Algobra.Props.C15
 import Algobra.Props.C03
 import Algobra.Proofs.ParseRTPoly
+import Algobra.Proofs.ParseRTCoef
+import Algobra.Proofs.ParseRTBPoly
+import Algobra.Proofs.BPolyPerm
+import Algobra.Proofs.ParseRTAdd
 import Algobra.Proofs.ExtField
 
 namespace Algobra.C15
@@ -256,21 +265,557 @@ example : Ext.parse 3 [2, 2, 1] "2a + 1" = .ok [1, 2] := by
   have e : (extOps 3 2 [2, 2, 1]).toStr [1, 2] = "2a + 1" := by decide
   rwa [e] at h
 
-/-! ### 5. what remains of `C15_full` -/
+/-! ### 5. univariate polynomials over binary and extension fields
 
-/-- NOT PROVED. The parts of `C15_full` that are still only validated by the correspondence run:
-    univariate polynomials over binary and extension fields (missing: `CoefRT` for `binOps` /
-    `extOps`, i.e. that `Parse.scanCoefNamed` consumes exactly a printed element, parenthesised
-    when it has several terms — then `upoly_roundtrip_generic` applies as it stands), bivariate
-    polynomials (`Parse.matchesB`), additivity and the notational variations for all of them.
-    Also note: `UPolyRoundTrip` as stated in `Props/C15.lean` has no bound on the number of
-    coefficients; an exponent `≥ 2^63` is a `strconv.ParseInt` range error, so the provable
-    statement carries `f.length ≤ 2^63` (a Go slice cannot be longer). -/
+  The coefficient pattern `RegexElement(true)` of these fields — one term `digits*(W(^digits+)?)?`
+  or a parenthesised " + "-joined list of them — consumes exactly a printed element
+  (`ParseRT.bin_coefRT`, `ext_coefRT`), so `upoly_roundtrip_generic` applies.  The `Lawful` record
+  (field structure; needed for the canonical-form reasoning about `setCoef`) is a hypothesis here;
+  for the fields the `Define` functions return it is supplied in `Props/C15FullDefine.lean`. -/
+
+/-- the coefficient syntax of a binary field reads printed elements back -/
+theorem bin_coefRT {w : String} (hw : AdmissibleName w) {n : Nat} (m : Nat) (hn : n < 64) :
+    CoefRT (binOps n m w) (fun a => a < 2 ^ n) :=
+  ParseRT.bin_coefRT ((admissible_iff_simple w).1 hw) m hn
+
+/-- Round trip of univariate polynomials over a binary field `GF(2^n)` (`n < 64`) whose variable
+    `w` is admissible, for every admissible polynomial variable `v` that cannot be confused with
+    `w`, in every ring or quotient ring: a well-formed, reduced polynomial of at most `2^63`
+    coefficients is returned by the parser.  `L` is any lawful structure on `binOps n m w` whose
+    valid elements are the masks `a < 2^n` (e.g. `BinField.binLawful`). -/
+theorem bin_upoly_roundtrip {K : Type} [Field K] {n m : Nat} {w : String}
+    (L : Lawful (binOps n m w) K) (hL : ∀ a, L.valid a ↔ a < 2 ^ n) (hw : AdmissibleName w)
+    (hn : n < 64) {v : String} (hv : AdmissibleName v) (hun : Unconfusable v w)
+    (mod : Option (UPoly Nat)) {f : UPoly Nat} (hf : WF L f) (hlen : f.length ≤ 2 ^ 63)
+    (hred : reduceIn { F := binOps n m w, varName := v, modulus := mod } f = some f) :
+    UPoly.parse { F := binOps n m w, varName := v, modulus := mod }
+      (UPoly.toStr (binOps n m w) v f) = .ok (some f) := by
+  have hown : ∀ w', (binOps n m w).ownVar = some w' → w' = w := by
+    intro w' h; injection h with e; exact e.symm
+  exact upoly_roundtrip_generic L ((bin_coefRT hw m hn).mono fun a ha => (hL a).1 ha) rfl
+    (by show ¬ popCount 0 > 1; rw [ParseRT.popCount_zero]; omega)
+    (fun w' h => by rw [hown w' h]; exact hw) hv (fun w' h => by rw [hown w' h]; exact hun)
+    mod hf hlen hred
+
+/-- the same in the form of `UPolyRoundTrip` (clause 1, default notation) -/
+theorem bin_upoly_roundtrip_beq {K : Type} [Field K] {n m : Nat} {w : String}
+    (L : Lawful (binOps n m w) K) (hL : ∀ a, L.valid a ↔ a < 2 ^ n) (hw : AdmissibleName w)
+    (hn : n < 64) {v : String} (hv : AdmissibleName v) (hun : Unconfusable v w)
+    (mod : Option (UPoly Nat)) {f : UPoly Nat}
+    (hf : UValid (binSpec n m w) { F := binOps n m w, varName := v, modulus := mod } f)
+    (hlen : f.length ≤ 2 ^ 63) :
+    ∃ g, UPoly.parse { F := binOps n m w, varName := v, modulus := mod }
+        (uToStrN {} (binOps n m w) v f) = .ok (some g) ∧
+      UPoly.equal (binOps n m w) f g = true := by
+  obtain ⟨hcanon, hval, hred⟩ := hf
+  have hwf : WF L f := ⟨fun c hc => (hL c).2 (hval c hc), hcanon⟩
+  refine ⟨f, ?_, (equal_iff_eq L hwf.1 hwf.1).2 rfl⟩
+  rw [uToStrN_default]
+  exact bin_upoly_roundtrip L hL hw hn hv hun mod hwf hlen hred
+
+section ExtPoly
+variable {p : Nat} [Fact p.Prime] {h32 : p - 1 < 2 ^ 32} {n : Nat} {g : List Nat}
+
+/-- the coefficient syntax of an extension field reads printed elements back -/
+theorem ext_coefRT (M : ExtField.Modulus h32 n g) (hn : n ≤ 2 ^ 63) :
+    CoefRT (extOps p n g) (ExtField.Valid h32 n) := by
+  have hp : p.Prime := Fact.out
+  have hov : ovOf (extOps p n g) = some ['a'] := rfl
+  have htext : ∀ a, coefText (extOps p n g) a =
+      (if UPoly.nTerms (primeOps p) a > 1 then "(" ++ UPoly.toStr (primeOps p) "a" a ++ ")"
+       else UPoly.toStr (primeOps p) "a" a).toList := fun _ => rfl
+  refine ⟨?_, ?_, ?_, ?_, ?_⟩
+  · intro a ha X hX
+    rw [hov] at hX ⊢
+    rw [htext]
+    exact ext_scan (ExtField.PL h32) ha.1 X hX
+  · intro a ha
+    rw [htext, trimParens_coef (ext_toStr_noParen a)]
+    exact ext_roundtrip M hn ha
+  · intro a ha
+    rw [htext]
+    exact ext_head (ExtField.PL h32) ha.1
+  · intro a _ h
+    show a = [1 % p]
+    rw [Nat.mod_eq_of_lt hp.one_lt]
+    cases a with
+    | nil => simp [extOps, UPoly.isOne] at h
+    | cons c t =>
+      cases t with
+      | nil =>
+        have : c = 1 := by simpa [extOps, UPoly.isOne, primeOps] using h
+        rw [this]
+      | cons _ _ => simp [extOps, UPoly.isOne] at h
+  · intro w hw
+    have : w = "a" := by injection hw with e; exact e.symm
+    subst this
+    exact ⟨'a', [], rfl, by decide⟩
+
+/-- Round trip of univariate polynomials over an extension field `F_p[a]/(g)` (`ExtField.Modulus`,
+    `n ≤ 2^63`), for every admissible polynomial variable `v` that cannot be confused with `a`, in
+    every ring or quotient ring.  `L` is any lawful structure on `extOps p n g` whose valid
+    elements are `ExtField.Valid` (e.g. `ExtField.extLawful M`). -/
+theorem ext_upoly_roundtrip {K : Type} [Field K] (M : ExtField.Modulus h32 n g) (hn : n ≤ 2 ^ 63)
+    (L : Lawful (extOps p n g) K) (hL : ∀ a, L.valid a ↔ ExtField.Valid h32 n a)
+    {v : String} (hv : AdmissibleName v) (hun : Unconfusable v "a")
+    (mod : Option (UPoly (UPoly Nat))) {f : UPoly (UPoly Nat)} (hf : WF L f)
+    (hlen : f.length ≤ 2 ^ 63)
+    (hred : reduceIn { F := extOps p n g, varName := v, modulus := mod } f = some f) :
+    UPoly.parse { F := extOps p n g, varName := v, modulus := mod }
+      (UPoly.toStr (extOps p n g) v f) = .ok (some f) := by
+  have hown : ∀ w', (extOps p n g).ownVar = some w' → w' = "a" := by
+    intro w' h; injection h with e; exact e.symm
+  exact upoly_roundtrip_generic L ((ext_coefRT M hn).mono fun a ha => (hL a).1 ha)
+    (by show UPoly.toStr (primeOps p) "a" [0] = "0"; rfl)
+    (by show ¬ UPoly.nTerms (primeOps p) [0] > 1; simp [UPoly.nTerms, UPoly.isZero, primeOps])
+    (fun w' h => by rw [hown w' h]; exact ⟨'a', [], by decide, by decide, by decide⟩) hv
+    (fun w' h => by rw [hown w' h]; exact hun) mod hf hlen hred
+
+/-- the same in the form of `UPolyRoundTrip` (clause 1, default notation) -/
+theorem ext_upoly_roundtrip_beq {K : Type} [Field K] (M : ExtField.Modulus h32 n g)
+    (hn : n ≤ 2 ^ 63) (L : Lawful (extOps p n g) K)
+    (hL : ∀ a, L.valid a ↔ ExtField.Valid h32 n a)
+    {v : String} (hv : AdmissibleName v) (hun : Unconfusable v "a")
+    (mod : Option (UPoly (UPoly Nat))) {f : UPoly (UPoly Nat)}
+    (hf : UValid (extSpec p n g) { F := extOps p n g, varName := v, modulus := mod } f)
+    (hlen : f.length ≤ 2 ^ 63) :
+    ∃ g', UPoly.parse { F := extOps p n g, varName := v, modulus := mod }
+        (uToStrN {} (extOps p n g) v f) = .ok (some g') ∧
+      UPoly.equal (extOps p n g) f g' = true := by
+  obtain ⟨hcanon, hval, hred⟩ := hf
+  have hwf : WF L f :=
+    ⟨fun c hc => (hL c).2 (by have := hval c hc; exact ⟨⟨this.2.2, this.1⟩, this.2.1⟩), hcanon⟩
+  refine ⟨f, ?_, (equal_iff_eq L hwf.1 hwf.1).2 rfl⟩
+  rw [uToStrN_default]
+  exact ext_upoly_roundtrip M hn L hL hv hun mod hwf hlen hred
+
+end ExtPoly
+
+-- non-vacuity: (a + 1)X^2 + (a^2 + 1) over GF(8) = GF(2)[a]/(a^3 + a + 1)
+example : UPoly.parse { F := binOps 3 11 "a", varName := "X", modulus := none }
+    "(a + 1)X^2 + (a^2 + 1)" = .ok (some [5, 0, 3]) := by
+  have : Fact (Irreducible (BinField.toPoly2 11)) := ⟨BinField.irreducible_toPoly2_eleven⟩
+  have h := bin_upoly_roundtrip
+    (BinField.binLawful (n := 3) (m := 11) (by norm_num) (by norm_num) (by norm_num) (by norm_num) "a")
+    (fun _ => Iff.rfl) ⟨'a', [], by decide, by decide, by decide⟩ (by norm_num) (v := "X")
+    ⟨'X', [], by decide, by decide, by decide⟩ (by unfold Unconfusable; decide) none
+    (f := [5, 0, 3])
+    ⟨fun c hc => by
+        have : c < 2 ^ 3 := by simp at hc; omega
+        exact this,
+      by simp, fun _ => by decide⟩ (by decide) rfl
+  have e : UPoly.toStr (binOps 3 11 "a") "X" [5, 0, 3] = "(a + 1)X^2 + (a^2 + 1)" := by
+    decide +kernel
+  rwa [e] at h
+
+-- non-vacuity: aX + (2a + 1) over GF(9) = F_3[a]/(a^2 + 2a + 2)
+example : UPoly.parse { F := extOps 3 2 [2, 2, 1], varName := "X", modulus := none }
+    "aX + (2a + 1)" = .ok (some [[1, 2], [0, 1]]) := by
+  have : Fact (Irreducible (toPoly (ExtField.PL ExtField.h32_three) [2, 2, 1])) :=
+    ⟨ExtField.gf9_irreducible⟩
+  have h := ext_upoly_roundtrip ExtField.gf9_modulus (by norm_num)
+    (ExtField.extLawful ExtField.gf9_modulus) (fun _ => Iff.rfl) (v := "X")
+    ⟨'X', [], by decide, by decide, by decide⟩ (by unfold Unconfusable; decide) none
+    (f := [[1, 2], [0, 1]])
+    ⟨fun c hc => by
+        have hc' : c = [1, 2] ∨ c = [0, 1] := by simpa using hc
+        rcases hc' with rfl | rfl
+        · exact ExtField.gf9_valid (by decide) ⟨by simp, fun _ => by decide⟩ (by decide)
+        · exact ExtField.gf9_valid (by decide) ⟨by simp, fun _ => by decide⟩ (by decide),
+      by simp, fun _ => by decide⟩ (by decide) rfl
+  have e : UPoly.toStr (extOps 3 2 [2, 2, 1]) "X" [[1, 2], [0, 1]] = "aX + (2a + 1)" := by decide
+  rwa [e] at h
+
+/-! ### 6. bivariate polynomials
+
+  `Parse.matchesB` on a printed polynomial yields one match per term (`ParseRT.matchesB_terms`);
+  the parser rebuilds the polynomial in printing order, i.e. as `sortedTerms`, a permutation of
+  the original association list; division does not depend on the order of the stored terms
+  (`BPoly.reduceIn_perm`, every `Order`, every ideal), so in a quotient ring the reduced original
+  is returned, and without ideal the permutation, which `Equal` identifies with the original. -/
+
+theorem unconf_of_unconfusable {a b : String} (h : Unconfusable a b) : Parse.unconf a b = true := by
+  unfold Unconfusable UPoly.strLower at h
+  simp only [String.toList_ofList] at h
+  unfold Parse.unconf
+  have h1 : (a.toList.map Regex.lower).isPrefixOf (b.toList.map Regex.lower) = false := by
+    cases hh : (a.toList.map Regex.lower).isPrefixOf (b.toList.map Regex.lower) with
+    | false => rfl
+    | true => exact absurd (List.isPrefixOf_iff_prefix.1 hh) h.1
+  have h2 : (b.toList.map Regex.lower).isPrefixOf (a.toList.map Regex.lower) = false := by
+    cases hh : (b.toList.map Regex.lower).isPrefixOf (a.toList.map Regex.lower) with
+    | false => rfl
+    | true => exact absurd (List.isPrefixOf_iff_prefix.1 hh) h.2
+  rw [h1, h2]; rfl
+
+theorem bnames_of {α : Type} {F : FOps α} {x y : String} (hx : AdmissibleName x)
+    (hy : AdmissibleName y) (hxy : Unconfusable x y)
+    (hun : ∀ w, F.ownVar = some w → Unconfusable x w ∧ Unconfusable y w) : BNames F x y := by
+  obtain ⟨x0, xt, hx1, hx2, _⟩ := hx
+  obtain ⟨y0, yt, hy1, hy2, _⟩ := hy
+  have hxy' := hxy
+  unfold Unconfusable UPoly.strLower at hxy'
+  simp only [String.toList_ofList] at hxy'
+  refine ⟨⟨x0, xt, hx1, hx2⟩, ⟨y0, yt, hy1, hy2⟩, stripCi_none_of_unconf hxy', ?_,
+    fun w X hw => strip_none_of_unconfusable (hun w hw).1 X,
+    fun w X hw => strip_none_of_unconfusable (hun w hw).2 X⟩
+  intro e
+  apply hxy'.1
+  have := congrArg String.toList e
+  unfold UPoly.strLower at this
+  simp only [String.toList_ofList] at this
+  rw [this]
+
+/-- Round trip of bivariate polynomials (default notation) over any lawful coefficient record with
+    a `CoefRT` coefficient syntax, for admissible, pairwise unconfusable variable names, EVERY
+    monomial order and EVERY ideal: a well-formed (distinct exponent pairs, valid nonzero
+    coefficients), reduced polynomial whose exponents fit a machine word (`strconv.ParseUint`) is
+    parsed to an `Equal` polynomial. -/
+theorem bpoly_roundtrip_generic {α K : Type} [Field K] {F : FOps α} (L : Lawful F K)
+    (H : CoefRT F L.valid) (hz1 : F.toStr F.zero = "0") (hz2 : ¬ F.nTerms F.zero > 1)
+    (hown : ∀ w, F.ownVar = some w → AdmissibleName w)
+    {x y : String} (hx : AdmissibleName x) (hy : AdmissibleName y) (hxy : Unconfusable x y)
+    (hun : ∀ w, F.ownVar = some w → Unconfusable x w ∧ Unconfusable y w)
+    (ord : Order) (ideal : Option (List (BPoly α))) {f : BPoly α} (hf : BPoly.WF L f)
+    (hb : BPoly.Bounded f)
+    (hred : BPoly.reduceIn { F := F, ord := ord, varNames := (x, y), ideal := ideal } f = some f) :
+    ∃ g, BPoly.parse { F := F, ord := ord, varNames := (x, y), ideal := ideal }
+        (BPoly.toStr { F := F, ord := ord, varNames := (x, y), ideal := ideal } f) = .ok (some g) ∧
+      BPoly.equal F f g = true := by
+  have hdir : BPoly.directOK { F := F, ord := ord, varNames := (x, y), ideal := ideal } = true := by
+    unfold BPoly.directOK
+    simp only [(admissible_iff_simple x).1 hx, (admissible_iff_simple y).1 hy, Bool.and_self,
+      Bool.true_and]
+    cases hw : F.ownVar with
+    | none => rfl
+    | some w =>
+      simp only [(admissible_iff_simple w).1 (hown w hw), unconf_of_unconfusable (hun w hw).1,
+        unconf_of_unconfusable (hun w hw).2, Bool.and_self]
+  have hparse := bpoly_parse_toStr { F := F, ord := ord, varNames := (x, y), ideal := ideal } L H
+    hz1 hz2 (bnames_of hx hy hxy hun) hdir hf hb
+  have hperm := sortedTerms_perm (F := F) ord hf.1
+  rw [hparse]
+  cases hid : ideal with
+  | none =>
+    refine ⟨BPoly.sortedTerms F ord f, by simp [BPoly.reduceIn], ?_⟩
+    exact (BPoly.equal_iff L hf (BPoly.WF_perm L hperm.symm hf)).2 (BPoly.toMv_perm L hperm.symm)
+  | some gs =>
+    subst hid
+    refine ⟨f, ?_, (BPoly.equal_iff L hf hf).2 rfl⟩
+    rw [← BPoly.reduceIn_perm _ (gs := gs) rfl hperm.symm hf.1, hred]
+
+/-- `BPolyRoundTrip` clause 1 (default notation) over a prime field: all orders, with or without
+    ideal -/
+theorem prime_bpoly_roundtrip {p : Nat} (hp : p.Prime) (h32 : p - 1 < 2 ^ 32) {x y : String}
+    (hx : AdmissibleName x) (hy : AdmissibleName y) (hxy : Unconfusable x y) (ord : Order)
+    (ideal : Option (List (BPoly Nat))) {f : BPoly Nat}
+    (hf : BValid (primeSpec p) { F := primeOps p, ord := ord, varNames := (x, y), ideal := ideal } f) :
+    ∃ g, BPoly.parse { F := primeOps p, ord := ord, varNames := (x, y), ideal := ideal }
+        (bToStrN {} { F := primeOps p, ord := ord, varNames := (x, y), ideal := ideal } f) =
+          .ok (some g) ∧
+      BPoly.equal (primeOps p) f g = true := by
+  have := Fact.mk hp
+  obtain ⟨hnd, hval, hred⟩ := hf
+  have L := primeLawfulFact p h32
+  have hwf : BPoly.WF (primeLawfulFact p h32) f :=
+    ⟨hnd, fun t ht => ⟨(hval t ht).1,
+      ((primeLawfulFact p h32).isZero_false_iff _ (hval t ht).1).1 (hval t ht).2.1⟩⟩
+  rw [bToStrN_default]
+  exact bpoly_roundtrip_generic (primeLawfulFact p h32) (prime_coefRT hp.two_le (by omega))
+    (by show toString (0 : Nat) = "0"; decide) (by show ¬ (1 > 1); omega)
+    (fun w hw => by cases hw) hx hy hxy (fun w hw => by cases hw) ord ideal hwf
+    (fun t ht => (hval t ht).2.2) hred
+
+/-- over a binary field (`L`: any lawful structure with `valid a ↔ a < 2^n`) -/
+theorem bin_bpoly_roundtrip {K : Type} [Field K] {n m : Nat} {w : String}
+    (L : Lawful (binOps n m w) K) (hL : ∀ a, L.valid a ↔ a < 2 ^ n) (hw : AdmissibleName w)
+    (hn : n < 64) {x y : String} (hx : AdmissibleName x) (hy : AdmissibleName y)
+    (hxy : Unconfusable x y) (hxw : Unconfusable x w) (hyw : Unconfusable y w) (ord : Order)
+    (ideal : Option (List (BPoly Nat))) {f : BPoly Nat}
+    (hf : BValid (binSpec n m w) { F := binOps n m w, ord := ord, varNames := (x, y), ideal := ideal } f) :
+    ∃ g, BPoly.parse { F := binOps n m w, ord := ord, varNames := (x, y), ideal := ideal }
+        (bToStrN {} { F := binOps n m w, ord := ord, varNames := (x, y), ideal := ideal } f) =
+          .ok (some g) ∧
+      BPoly.equal (binOps n m w) f g = true := by
+  obtain ⟨hnd, hval, hred⟩ := hf
+  have hwf : BPoly.WF L f :=
+    ⟨hnd, fun t ht => ⟨(hL _).2 (hval t ht).1,
+      (L.isZero_false_iff _ ((hL _).2 (hval t ht).1)).1 (hval t ht).2.1⟩⟩
+  have hown : ∀ w', (binOps n m w).ownVar = some w' → w' = w := by
+    intro w' h; injection h with e; exact e.symm
+  rw [bToStrN_default]
+  exact bpoly_roundtrip_generic L ((bin_coefRT hw m hn).mono fun a ha => (hL a).1 ha) rfl
+    (by show ¬ popCount 0 > 1; rw [ParseRT.popCount_zero]; omega)
+    (fun w' h => by rw [hown w' h]; exact hw) hx hy hxy
+    (fun w' h => by rw [hown w' h]; exact ⟨hxw, hyw⟩) ord ideal hwf
+    (fun t ht => (hval t ht).2.2) hred
+
+section ExtBPoly
+variable {p : Nat} [Fact p.Prime] {h32 : p - 1 < 2 ^ 32} {n : Nat} {g : List Nat}
+
+/-- over an extension field (`L`: any lawful structure with `valid = ExtField.Valid`) -/
+theorem ext_bpoly_roundtrip {K : Type} [Field K] (M : ExtField.Modulus h32 n g) (hn : n ≤ 2 ^ 63)
+    (L : Lawful (extOps p n g) K) (hL : ∀ a, L.valid a ↔ ExtField.Valid h32 n a)
+    {x y : String} (hx : AdmissibleName x) (hy : AdmissibleName y) (hxy : Unconfusable x y)
+    (hxw : Unconfusable x "a") (hyw : Unconfusable y "a") (ord : Order)
+    (ideal : Option (List (BPoly (UPoly Nat)))) {f : BPoly (UPoly Nat)}
+    (hf : BValid (extSpec p n g) { F := extOps p n g, ord := ord, varNames := (x, y), ideal := ideal } f) :
+    ∃ g', BPoly.parse { F := extOps p n g, ord := ord, varNames := (x, y), ideal := ideal }
+        (bToStrN {} { F := extOps p n g, ord := ord, varNames := (x, y), ideal := ideal } f) =
+          .ok (some g') ∧
+      BPoly.equal (extOps p n g) f g' = true := by
+  obtain ⟨hnd, hval, hred⟩ := hf
+  have hv : ∀ t ∈ f, L.valid t.2 := fun t ht =>
+    (hL _).2 (by have := (hval t ht).1; exact ⟨⟨this.2.2, this.1⟩, this.2.1⟩)
+  have hwf : BPoly.WF L f :=
+    ⟨hnd, fun t ht => ⟨hv t ht, (L.isZero_false_iff _ (hv t ht)).1 (hval t ht).2.1⟩⟩
+  have hown : ∀ w', (extOps p n g).ownVar = some w' → w' = "a" := by
+    intro w' h; injection h with e; exact e.symm
+  rw [bToStrN_default]
+  exact bpoly_roundtrip_generic L ((ext_coefRT M hn).mono fun a ha => (hL a).1 ha)
+    (by show UPoly.toStr (primeOps p) "a" [0] = "0"; rfl)
+    (by show ¬ UPoly.nTerms (primeOps p) [0] > 1; simp [UPoly.nTerms, UPoly.isZero, primeOps])
+    (fun w' h => by rw [hown w' h]; exact ⟨'a', [], by decide, by decide, by decide⟩) hx hy hxy
+    (fun w' h => by rw [hown w' h]; exact ⟨hxw, hyw⟩) ord ideal hwf
+    (fun t ht => (hval t ht).2.2) hred
+
+end ExtBPoly
+
+-- non-vacuity: 3X^2Y + X + 5 in F_7[X,Y] (lex), stored in another order than printed
+example : ∃ g, BPoly.parse { F := primeOps 7, ord := ⟨.lex, true⟩, varNames := ("X", "Y"), ideal := none }
+      "3X^2Y + X + 5" = .ok (some g) ∧
+    BPoly.equal (primeOps 7) [((2, 1), 3), ((0, 0), 5), ((1, 0), 1)] g = true := by
+  have h := prime_bpoly_roundtrip (p := 7) (by norm_num) (by norm_num) (x := "X") (y := "Y")
+    ⟨'X', [], by decide, by decide, by decide⟩ ⟨'Y', [], by decide, by decide, by decide⟩
+    (by unfold Unconfusable; decide) ⟨.lex, true⟩ none
+    (f := [((2, 1), 3), ((0, 0), 5), ((1, 0), 1)])
+    ⟨by decide, by
+      intro t ht
+      have : t = ((2, 1), 3) ∨ t = ((0, 0), 5) ∨ t = ((1, 0), 1) := by simpa using ht
+      rcases this with rfl | rfl | rfl <;>
+        exact ⟨by show (_ : Nat) < 7; decide, by decide, by decide, by decide⟩, rfl⟩
+  rw [bToStrN_default] at h
+  have e : BPoly.toStr { F := primeOps 7, ord := ⟨.lex, true⟩, varNames := ("X", "Y"), ideal := none }
+      [((2, 1), 3), ((0, 0), 5), ((1, 0), 1)] = "3X^2Y + X + 5" := by decide +kernel
+  rwa [e] at h
+
+-- non-vacuity: XY + 3 in F_7[X,Y]/(X^2 + 1), graded lexicographic order
+example : ∃ g, BPoly.parse { F := primeOps 7, ord := (Order.mk (.wdeglex 1 1) true), varNames := ("X", "Y"), ideal := some [[((2, 0), 1), ((0, 0), 1)]] } "XY + 3" = .ok (some g) ∧
+    BPoly.equal (primeOps 7) [((1, 1), 1), ((0, 0), 3)] g = true := by
+  have h := prime_bpoly_roundtrip (p := 7) (by norm_num) (by norm_num) (x := "X") (y := "Y")
+    ⟨'X', [], by decide, by decide, by decide⟩ ⟨'Y', [], by decide, by decide, by decide⟩
+    (by unfold Unconfusable; decide) (Order.mk (.wdeglex 1 1) true) (some [[((2, 0), 1), ((0, 0), 1)]])
+    (f := [((1, 1), 1), ((0, 0), 3)])
+    ⟨by decide, by
+      intro t ht
+      have : t = ((1, 1), 1) ∨ t = ((0, 0), 3) := by simpa using ht
+      rcases this with rfl | rfl <;>
+        exact ⟨by show (_ : Nat) < 7; decide, by decide, by decide, by decide⟩,
+      by decide +kernel⟩
+  rw [bToStrN_default] at h
+  have e : BPoly.toStr { F := primeOps 7, ord := (Order.mk (.wdeglex 1 1) true), varNames := ("X", "Y"), ideal := some [[((2, 0), 1), ((0, 0), 1)]] } [((1, 1), 1), ((0, 0), 3)] = "XY + 3" := by
+    decide +kernel
+  rwa [e] at h
+
+/-! ### 7. additivity (univariate)
+
+  `polynomialStringToMap` accumulates repeated degrees in its map (`UPoly.mapAdd`), so the printed
+  forms of two polynomials joined by " + " parse to their sum (`ParseRT.upoly_parse_add`). -/
+
+/-- Additivity over any lawful coefficient record with a `CoefRT` coefficient syntax; the modulus
+    (if any) is well-formed, monic, of degree ≥ 1. -/
+theorem upoly_additive_generic {α K : Type} [Field K] {F : FOps α} (L : Lawful F K)
+    (H : CoefRT F L.valid) (hz1 : F.toStr F.zero = "0") (hz2 : ¬ F.nTerms F.zero > 1)
+    (hown : ∀ w, F.ownVar = some w → AdmissibleName w)
+    {v : String} (hv : AdmissibleName v) (hun : ∀ w, F.ownVar = some w → Unconfusable v w)
+    (mod : Option (UPoly α))
+    (hmod : ∀ g, mod = some g → WF L g ∧ (toPoly L g).Monic ∧ 1 ≤ (toPoly L g).natDegree)
+    {f₁ f₂ : UPoly α} (hf₁ : WF L f₁) (hf₂ : WF L f₂) (hl₁ : f₁.length ≤ 2 ^ 63)
+    (hl₂ : f₂.length ≤ 2 ^ 63)
+    (hr₁ : reduceIn { F := F, varName := v, modulus := mod } f₁ = some f₁)
+    (hr₂ : reduceIn { F := F, varName := v, modulus := mod } f₂ = some f₂) :
+    ∃ g, UPoly.parse { F := F, varName := v, modulus := mod }
+        (UPoly.toStr F v f₁ ++ " + " ++ UPoly.toStr F v f₂) = .ok (some g) ∧
+      UPoly.equal F g (UPoly.add F f₁ f₂) = true := by
+  have hdir : UPoly.directOK F v = true := by
+    unfold UPoly.directOK
+    rw [(admissible_iff_simple v).1 hv, Bool.true_and]
+    cases hw : F.ownVar with
+    | none => rfl
+    | some w => exact (admissible_iff_simple w).1 (hown w hw)
+  obtain ⟨b, hb, hbp, hparse⟩ := upoly_parse_add L H hz1 hz2 hdir
+    (fun w X hw => strip_none_of_unconfusable (hun w hw) X) mod hf₁ hf₂ hl₁ hl₂
+  have hsum := add_wf L hf₁ hf₂.1
+  have hsump := toPoly_add L hf₁ hf₂.1
+  rw [hparse]
+  cases hm : mod with
+  | none =>
+    refine ⟨b, by simp [reduceIn], ?_⟩
+    exact (equal_iff L hb hsum).2 (by rw [hbp, hsump])
+  | some g =>
+    subst hm
+    obtain ⟨hg1, hg2, hg3⟩ := hmod g rfl
+    have Q : IsQuot { F := F, varName := v, modulus := some g } L g := ⟨rfl, hg1, hg2, hg3⟩
+    obtain ⟨b', hb1, hb2, hb3, _⟩ := reduceIn_spec Q hb
+    obtain ⟨f1', e1, _, _, d1⟩ := reduceIn_spec Q hf₁
+    obtain ⟨f2', e2, _, _, d2⟩ := reduceIn_spec Q hf₂
+    rw [hr₁] at e1; rw [hr₂] at e2
+    injection e1 with e1; injection e2 with e2
+    subst e1 e2
+    refine ⟨b', by rw [hb1], ?_⟩
+    apply (equal_iff L hb2 hsum).2
+    rw [hb3, hbp, hsump]
+    exact (Polynomial.modByMonic_eq_self_iff hg2).2 
+      (lt_of_le_of_lt (Polynomial.degree_add_le _ _) (max_lt d1 d2))
+
+/-- what `ModOK` gives for a prime field: the modulus is well-formed, monic, of degree ≥ 1 -/
+theorem prime_modOK {p : Nat} [Fact p.Prime] (h32 : p - 1 < 2 ^ 32) {mod : Option (UPoly Nat)}
+    (hm : ModOK (primeSpec p) mod) :
+    ∀ g, mod = some g → WF (primeLawfulFact p h32) g ∧ (toPoly (primeLawfulFact p h32) g).Monic ∧
+      1 ≤ (toPoly (primeLawfulFact p h32) g).natDegree := by
+  intro g hg
+  obtain ⟨hcanon, hval, hlen, hone⟩ := hm g hg
+  have hwf : WF (primeLawfulFact p h32) g := ⟨hval, hcanon⟩
+  have hnd := natDegree_toPoly (primeLawfulFact p h32) hwf
+  refine ⟨hwf, ?_, by rw [hnd]; unfold UPoly.ld; omega⟩
+  unfold Polynomial.Monic Polynomial.leadingCoeff
+  rw [hnd, coeff_toPoly_coef]
+  have hv : (primeLawfulFact p h32).valid (UPoly.lc (primeOps p) g) :=
+    ParseRT.coef_valid (primeLawfulFact p h32) hval _
+  exact ((primeLawfulFact p h32).isOne_iff _ hv).1 hone
+
+/-- `UPolyRoundTrip` clause 2 (additivity) over a prime field, every admissible variable name,
+    every ring or quotient ring with an admissible modulus, at most `2^63` coefficients -/
+theorem prime_upoly_additive {p : Nat} (hp : p.Prime) (h32 : p - 1 < 2 ^ 32) {v : String}
+    (hv : AdmissibleName v) (mod : Option (UPoly Nat)) (hm : ModOK (primeSpec p) mod)
+    {f₁ f₂ : UPoly Nat}
+    (hf₁ : UValid (primeSpec p) { F := primeOps p, varName := v, modulus := mod } f₁)
+    (hf₂ : UValid (primeSpec p) { F := primeOps p, varName := v, modulus := mod } f₂)
+    (hl₁ : f₁.length ≤ 2 ^ 63) (hl₂ : f₂.length ≤ 2 ^ 63) :
+    ∃ g, UPoly.parse { F := primeOps p, varName := v, modulus := mod }
+        (UPoly.toStr (primeOps p) v f₁ ++ " + " ++ UPoly.toStr (primeOps p) v f₂) = .ok (some g) ∧
+      UPoly.equal (primeOps p) g (UPoly.add (primeOps p) f₁ f₂) = true := by
+  have := Fact.mk hp
+  exact upoly_additive_generic (primeLawfulFact p h32) (prime_coefRT hp.two_le (by omega))
+    (by show toString (0 : Nat) = "0"; decide) (by show ¬ (1 > 1); omega)
+    (fun w hw => by cases hw) hv (fun w hw => by cases hw) mod (prime_modOK h32 hm)
+    ⟨hf₁.2.1, hf₁.1⟩ ⟨hf₂.2.1, hf₂.1⟩ hl₁ hl₂ hf₁.2.2 hf₂.2.2
+
+-- non-vacuity: (3X^2 + X + 5) + (4X^2 + 6) = 0X^2 + X + 4 = X + 4 in F_7[X]: degree 2 cancels
+example : ∃ g, UPoly.parse { F := primeOps 7, varName := "X", modulus := none }
+      "3X^2 + X + 5 + 4X^2 + 6" = .ok (some g) ∧
+    UPoly.equal (primeOps 7) g [4, 1] = true := by
+  have h := prime_upoly_additive (p := 7) (by norm_num) (by norm_num) (v := "X")
+    ⟨'X', [], by decide, by decide, by decide⟩ none (fun g hg => by cases hg)
+    (f₁ := [5, 1, 3]) (f₂ := [6, 0, 4])
+    ⟨⟨by simp, fun _ => by decide⟩, fun c hc => by
+        have : c < 7 := by simp at hc; omega
+        exact this, rfl⟩
+    ⟨⟨by simp, fun _ => by decide⟩, fun c hc => by
+        have : c < 7 := by simp at hc; omega
+        exact this, rfl⟩
+    (by decide) (by decide)
+  have e1 : UPoly.toStr (primeOps 7) "X" [5, 1, 3] ++ " + " ++ UPoly.toStr (primeOps 7) "X" [6, 0, 4] =
+      "3X^2 + X + 5 + 4X^2 + 6" := by decide +kernel
+  have e2 : UPoly.add (primeOps 7) [5, 1, 3] [6, 0, 4] = [4, 1] := by decide +kernel
+  rwa [e1, e2] at h
+
+/-- what `ModOK` gives in general -/
+theorem modOK_lawful {α K : Type} [Field K] {S : FieldSpec α} (L : Lawful S.F K)
+    (hL : ∀ a, S.Valid a → L.valid a) {mod : Option (UPoly α)} (hm : ModOK S mod) :
+    ∀ g, mod = some g → WF L g ∧ (toPoly L g).Monic ∧ 1 ≤ (toPoly L g).natDegree := by
+  intro g hg
+  obtain ⟨hcanon, hval, hlen, hone⟩ := hm g hg
+  have hav : AllValid L g := fun c hc => hL c (hval c hc)
+  have hwf : WF L g := ⟨hav, hcanon⟩
+  have hnd := natDegree_toPoly L hwf
+  refine ⟨hwf, ?_, by rw [hnd]; unfold UPoly.ld; omega⟩
+  unfold Polynomial.Monic Polynomial.leadingCoeff
+  rw [hnd, coeff_toPoly_coef]
+  exact (L.isOne_iff _ (ParseRT.coef_valid L hav _)).1 hone
+
+/-- additivity over a binary field -/
+theorem bin_upoly_additive {K : Type} [Field K] {n m : Nat} {w : String}
+    (L : Lawful (binOps n m w) K) (hL : ∀ a, L.valid a ↔ a < 2 ^ n) (hw : AdmissibleName w)
+    (hn : n < 64) {v : String} (hv : AdmissibleName v) (hun : Unconfusable v w)
+    (mod : Option (UPoly Nat)) (hm : ModOK (binSpec n m w) mod) {f₁ f₂ : UPoly Nat}
+    (hf₁ : UValid (binSpec n m w) { F := binOps n m w, varName := v, modulus := mod } f₁)
+    (hf₂ : UValid (binSpec n m w) { F := binOps n m w, varName := v, modulus := mod } f₂)
+    (hl₁ : f₁.length ≤ 2 ^ 63) (hl₂ : f₂.length ≤ 2 ^ 63) :
+    ∃ g, UPoly.parse { F := binOps n m w, varName := v, modulus := mod }
+        (UPoly.toStr (binOps n m w) v f₁ ++ " + " ++ UPoly.toStr (binOps n m w) v f₂) =
+          .ok (some g) ∧
+      UPoly.equal (binOps n m w) g (UPoly.add (binOps n m w) f₁ f₂) = true := by
+  have hown : ∀ w', (binOps n m w).ownVar = some w' → w' = w := by
+    intro w' h; injection h with e; exact e.symm
+  exact upoly_additive_generic L ((bin_coefRT hw m hn).mono fun a ha => (hL a).1 ha) rfl
+    (by show ¬ popCount 0 > 1; rw [ParseRT.popCount_zero]; omega)
+    (fun w' h => by rw [hown w' h]; exact hw) hv (fun w' h => by rw [hown w' h]; exact hun) mod
+    (modOK_lawful (S := binSpec n m w) L (fun a ha => (hL a).2 ha) hm)
+    ⟨fun c hc => (hL c).2 (hf₁.2.1 c hc), hf₁.1⟩ ⟨fun c hc => (hL c).2 (hf₂.2.1 c hc), hf₂.1⟩
+    hl₁ hl₂ hf₁.2.2 hf₂.2.2
+
+section ExtAdd
+variable {p : Nat} [Fact p.Prime] {h32 : p - 1 < 2 ^ 32} {n : Nat} {g : List Nat}
+
+/-- additivity over an extension field -/
+theorem ext_upoly_additive {K : Type} [Field K] (M : ExtField.Modulus h32 n g) (hn : n ≤ 2 ^ 63)
+    (L : Lawful (extOps p n g) K) (hL : ∀ a, L.valid a ↔ ExtField.Valid h32 n a)
+    {v : String} (hv : AdmissibleName v) (hun : Unconfusable v "a")
+    (mod : Option (UPoly (UPoly Nat))) (hm : ModOK (extSpec p n g) mod)
+    {f₁ f₂ : UPoly (UPoly Nat)}
+    (hf₁ : UValid (extSpec p n g) { F := extOps p n g, varName := v, modulus := mod } f₁)
+    (hf₂ : UValid (extSpec p n g) { F := extOps p n g, varName := v, modulus := mod } f₂)
+    (hl₁ : f₁.length ≤ 2 ^ 63) (hl₂ : f₂.length ≤ 2 ^ 63) :
+    ∃ g', UPoly.parse { F := extOps p n g, varName := v, modulus := mod }
+        (UPoly.toStr (extOps p n g) v f₁ ++ " + " ++ UPoly.toStr (extOps p n g) v f₂) =
+          .ok (some g') ∧
+      UPoly.equal (extOps p n g) g' (UPoly.add (extOps p n g) f₁ f₂) = true := by
+  have hown : ∀ w', (extOps p n g).ownVar = some w' → w' = "a" := by
+    intro w' h; injection h with e; exact e.symm
+  have hV : ∀ a, (extSpec p n g).Valid a → L.valid a := fun a ha =>
+    (hL a).2 ⟨⟨ha.2.2, ha.1⟩, ha.2.1⟩
+  exact upoly_additive_generic L ((ext_coefRT M hn).mono fun a ha => (hL a).1 ha)
+    (by show UPoly.toStr (primeOps p) "a" [0] = "0"; rfl)
+    (by show ¬ UPoly.nTerms (primeOps p) [0] > 1; simp [UPoly.nTerms, UPoly.isZero, primeOps])
+    (fun w' h => by rw [hown w' h]; exact ⟨'a', [], by decide, by decide, by decide⟩) hv
+    (fun w' h => by rw [hown w' h]; exact hun) mod
+    (modOK_lawful (S := extSpec p n g) L hV hm)
+    ⟨fun c hc => hV c (hf₁.2.1 c hc), hf₁.1⟩ ⟨fun c hc => hV c (hf₂.2.1 c hc), hf₂.1⟩
+    hl₁ hl₂ hf₁.2.2 hf₂.2.2
+
+end ExtAdd
+
+/-! ### 8. what remains of `C15_full` -/
+
+/-- `UPolyRoundTrip` of `Props/C15.lean` with the bound on the number of coefficients that the
+    exponent reader (`strconv.ParseInt`) imposes: an exponent `≥ 2^63` is a range error, so without
+    `f.length ≤ 2^63` the statement is false in the model (a Go slice cannot be longer anyway). -/
+def UPolyRoundTripB {α : Type} (S : FieldSpec α) : Prop :=
+  ∀ (v : String) (mod : Option (UPoly α)), AdmissibleName v →
+    (∀ w, S.ownVar = some w → Unconfusable v w) → ModOK S mod →
+    let R : UPoly.Ring α := { F := S.F, varName := v, modulus := mod }
+    (∀ f, UValid S R f → f.length ≤ 2 ^ 63 → ∀ N : Notation, N.ok →
+      ∃ g, UPoly.parse R (uToStrN N S.F v f) = .ok (some g) ∧ UPoly.equal S.F f g = true) ∧
+    (∀ f₁ f₂, UValid S R f₁ → UValid S R f₂ → f₁.length ≤ 2 ^ 63 → f₂.length ≤ 2 ^ 63 →
+      ∃ g, UPoly.parse R (UPoly.toStr S.F v f₁ ++ " + " ++ UPoly.toStr S.F v f₂) = .ok (some g) ∧
+        UPoly.equal S.F g (UPoly.add S.F f₁ f₂) = true)
+
+/-- NOT PROVED. What is still only validated by the correspondence run.  Proved of the statement
+    below, for all three field families, every ring/quotient ring, every monomial order, every
+    ideal: the instance `N = {}` (the printers' own notation) of the first clauses of
+    `UPolyRoundTripB` and `BPolyRoundTrip` (`prime_/bin_/ext_upoly_roundtrip_beq`,
+    `prime_/bin_/ext_bpoly_roundtrip`), and the second clause (additivity) of `UPolyRoundTripB`
+    (`prime_/bin_/ext_upoly_additive`); corollaries at the fields `Define` returns are in
+    `Props/C15FullDefine.lean`.  Missing: the other notations `N` (`*`, no `^`, blanks around
+    `+`, letter case, `y` before `x`) for univariate and bivariate polynomials, and bivariate
+    additivity (second clause of `BPolyRoundTrip`). -/
 def C15Full_remaining : Prop :=
-  (∀ p, Define.prime p = .ok (.prime p) → BPolyRoundTrip (primeSpec p)) ∧
+  (∀ p, Define.prime p = .ok (.prime p) →
+    UPolyRoundTripB (primeSpec p) ∧ BPolyRoundTrip (primeSpec p)) ∧
   (∀ q n m v, Define.bin Gen.dbText q = .ok (.bin n m) → AdmissibleName v →
-    UPolyRoundTrip (binSpec n m v) ∧ BPolyRoundTrip (binSpec n m v)) ∧
+    UPolyRoundTripB (binSpec n m v) ∧ BPolyRoundTrip (binSpec n m v)) ∧
   (∀ q p n g, Define.ext Gen.dbText q = .ok (.ext p n g) →
-    UPolyRoundTrip (extSpec p n g) ∧ BPolyRoundTrip (extSpec p n g))
+    UPolyRoundTripB (extSpec p n g) ∧ BPolyRoundTrip (extSpec p n g))
 
 end Algobra.C15
